@@ -65,6 +65,12 @@ func labelProps(label string) []string {
 // relevantProps is the property being checked plus (thorough tier) its lemma properties.
 var relevantProps []string
 
+// knownLabels holds "harness|label" of every listed known finding: a failure with such a signature is recorded and
+// reported (KNOWN-FINDING, or VIOLATION if its tags do not match), but the path continues WITHOUT assuming the failed
+// obligation, so that a known finding never hides the obligations behind it on the same path.
+var knownLabels = map[string]bool{}
+var knownAnyHarness = map[string]bool{}
+
 func labelHas(label, prop string) bool {
 	for _, p := range labelProps(label) {
 		if p == prop || p == "INV" || p == "GUAR" || p == "MSG" {
@@ -143,6 +149,11 @@ func cmdCheck(args []string) int {
 			fmt.Println("INCONCLUSIVE: bad known_findings.json:", err)
 			return 2
 		}
+	}
+
+	for _, k := range known.Findings {
+		knownLabels[k.Harness+"|"+k.Label] = true
+		knownAnyHarness[k.Label] = true
 	}
 
 	w, err := LoadWorld(*repo, hdir)
@@ -644,6 +655,10 @@ func (rp *replayer) ReplayPass(path string, prop string) (bool, string) {
 	assertFail := false
 	for _, line := range strings.Split(out, "\n") {
 		if strings.HasPrefix(line, "VERIF-ASSERT-FAIL ") && labelHas(strings.TrimPrefix(line, "VERIF-ASSERT-FAIL "), prop) {
+			// a listed known finding is not assumed away on a passing path either (see knownLabels)
+			if knownAnyHarness[strings.TrimSpace(strings.TrimPrefix(line, "VERIF-ASSERT-FAIL "))] {
+				continue
+			}
 			assertFail = true
 		}
 	}
